@@ -37,6 +37,9 @@ type XFrame struct {
 	Body      []byte
 	Raw       []byte
 	HdrErr    error // header block did not parse
+	// Fixed: the free fixed fields of the frame, in frame order (bolt: version, codec; boltv2: ver1,
+	// ver2, codec, switch). Build uses them when the length fits, Parse fills them.
+	Fixed []byte
 }
 
 // XCodec is the peer-side view of one xprotocol.
@@ -149,6 +152,7 @@ func buildBoltKV(h []KV) []byte {
 
 func (Bolt) Parse(fr []byte) (*XFrame, error) {
 	f := &XFrame{Proto: "bolt", Raw: fr}
+	f.Fixed = []byte{fr[4], fr[9]}
 	cmd := binary.BigEndian.Uint16(fr[2:4])
 	f.ID = uint64(binary.BigEndian.Uint32(fr[5:9]))
 	var cl, hl, bl, off int
@@ -184,6 +188,9 @@ func (p Bolt) Build(f *XFrame) []byte {
 	codec := p.Codec
 	if codec == 0 {
 		codec = 1
+	}
+	if len(f.Fixed) == 2 {
+		ver, codec = f.Fixed[0], f.Fixed[1]
 	}
 	cmd := uint16(1)
 	if !f.IsReq {
@@ -287,6 +294,7 @@ func (BoltV2) Split(buf []byte) (int, error) {
 
 func (BoltV2) Parse(fr []byte) (*XFrame, error) {
 	f := &XFrame{Proto: "boltv2", Raw: fr}
+	f.Fixed = []byte{fr[1], fr[5], fr[10], fr[11]}
 	cmd := binary.BigEndian.Uint16(fr[3:5])
 	f.ID = uint64(binary.BigEndian.Uint32(fr[6:10]))
 	var cl, hl, bl, off int
@@ -358,6 +366,9 @@ func (p BoltV2) Build(f *XFrame) []byte {
 	binary.BigEndian.PutUint32(out[6:], uint32(f.ID))
 	out[10] = codec
 	out[11] = 0 // switch: no crc
+	if len(f.Fixed) == 4 {
+		out[1], out[5], out[10], out[11] = f.Fixed[0], f.Fixed[1], f.Fixed[2], f.Fixed[3]
+	}
 	out = append(out, f.Class...)
 	out = append(out, hb...)
 	out = append(out, f.Body...)
